@@ -140,12 +140,17 @@ class Kinds:
             if self.selft is not None and t[1] == self.selft:
                 return 'P'                      # a tree field returned as a value: scalar by C17.R5
             if isinstance(t[1], tuple) and t[1][:1] == ('exc',):
-                return 'plain'
+                # the arguments of a caught exception are whatever the raiser put there (decimal's signals carry a list of classes)
+                return 'other-object' if t[2] in ('args', '__dict__', '__traceback__', '__cause__', '__context__', 'with_traceback') else 'plain'
             return 'bound-method/attribute'
         if k == 'exc':
             return 'other-object'
         if k == 'call':
             f, args = t[2], t[3]
+            if isinstance(f, tuple) and f[:2] == ('ref', 'modvar') and len(f) == 3:
+                mw_ = common.memo_wrapped(F, f[2])
+                if mw_ is not None and mw_[0] in ('builtin', 'ext'):
+                    f = ('ref', mw_[0], mw_[1])         # a memo around a library function returns what that function returns
             if isinstance(f, tuple) and f:
                 if f[0] == 'ref' and f[1] == 'builtin':
                     name = f[2]
@@ -200,6 +205,9 @@ class Kinds:
         if k == 'unknown':
             if isinstance(t[1], str) and t[1].startswith('maybe-assigned-in-try'):
                 return 'P'
+            if t[1] == 'after-extend' and len(t) == 3:
+                inner = self.kind(t[2])         # the elements came out of that iterable
+                return 'P' if inner in P_KINDS or inner in ('iterator', 'view') else inner
             self.unknown.append(show(t))
             return 'unknown'
         if k == 'withas':
@@ -382,6 +390,9 @@ def check(chk: Check) -> None:
                 for e in p.events:
                     if e.kind in ('store_sub', 'aug_sub') and om.carries(e.obj, stt):
                         vals.append(e.value)
+                    if e.kind == 'call' and isinstance(freeze(e.func), tuple) and freeze(e.func)[:1] == ('attr',) \
+                            and freeze(e.func)[2] in ('make_scope', 'push_scope') and om.carries(freeze(e.func)[1], stt):
+                        vals.extend(e.args)         # what a pushed scope binds is as visible to the program as a stored name
                 for v in vals:
                     kk = ks.kind(v)
                     if kk not in P_KINDS:
@@ -531,18 +542,100 @@ def _codec_lookup(e: Event, f) -> Optional[str]:
     return 'the codec name %s is not a constant: the codec registry imports encodings.<name> for whatever name arrives' % show(enc)
 
 
+def _table_callees(F, f):
+    """The callee is taken out of a module-level table of the package with a key that is not known (OPS.get(self.op),
+    OPS[op], OPS.get(op).apply): every value the table holds (or that field of it), else None."""
+    from ..symexec import exec_module_body, DictVal, ListVal, Closure
+    field = None
+    t = f
+    if isinstance(t, tuple) and t[:1] == ('attr',) and isinstance(t[1], tuple) and t[1][:1] in (('call',), ('sub',)):
+        field, t = t[2], t[1]
+    q = None
+    if isinstance(t, tuple) and t[:1] == ('call',) and len(t) > 2 and isinstance(t[2], tuple) and t[2][:1] == ('attr',) and t[2][2] == 'get' \
+            and isinstance(t[2][1], tuple) and t[2][1][:2] == ('ref', 'modvar'):
+        q = t[2][1][2]
+    elif isinstance(t, tuple) and t[:1] == ('sub',) and isinstance(t[1], tuple) and t[1][:2] == ('ref', 'modvar'):
+        q = t[1][2]
+    if q is None:
+        return None
+    mod, _, var = q.rpartition('.')
+    m = F.modules.get(mod)
+    if m is None or var not in m.assigns or len(m.assigns[var]) != 1:
+        return None
+    v = exec_module_body(F, m).get(var)
+    vals = None
+    if isinstance(v, DictVal) and all(i[0] != 'dstar' for i in v.items):
+        vals = [i[1] for i in v.items]
+    elif isinstance(v, ListVal) and v.concrete():
+        vals = list(v.elts)
+    elif isinstance(v, tuple) and v[:1] == ('tuple',):
+        vals = list(v[1:])
+    if not vals:
+        return None
+    out = []
+    for x in vals:
+        if field is not None:
+            if not (isinstance(x, tuple) and x[:1] == ('new',) and len(x) > 2 and field in dict(x[2])):
+                return None
+            x = dict(x[2])[field]
+        out.append(x)
+    return out
+
+
 def classify_callee(F, e: Event) -> Tuple[str, str]:
     """('pure'|'forbidden'|'trusted'|'dynamic'|'package'|'unknown', description)"""
     f = freeze(e.func)
     cl = _codec_lookup(e, f)
     if cl is not None:
         return ('forbidden', cl)
+    tc = _table_callees(F, f)
+    if tc is not None:
+        from ..symexec import Closure
+        verdicts = []
+        for x in tc:
+            fx = freeze(x) if not isinstance(x, Closure) else None
+            if isinstance(x, Closure):
+                # a lambda / nested function kept in the table: its body must not name a forbidden builtin or import
+                bad = [n.id for n in ast.walk(x.node) if isinstance(n, ast.Name) and n.id in TB.FORBIDDEN_BUILTINS and n.id not in ('type', 'super')]
+                bad += ['import' for n in ast.walk(x.node) if isinstance(n, (ast.Import, ast.ImportFrom))]
+                verdicts.append(('forbidden', 'table entry %s uses %s' % (x.qual, ', '.join(sorted(set(bad))))) if bad else ('package', x.qual))
+            elif isinstance(fx, tuple) and fx[:1] == ('ref',) and len(fx) == 3:
+                if fx[1] == 'builtin':
+                    verdicts.append(('forbidden', 'builtin %s' % fx[2]) if fx[2] in TB.FORBIDDEN_BUILTINS else ('pure', fx[2]))
+                elif fx[1] == 'ext':
+                    verdicts.append(('forbidden', fx[2]) if fx[2].startswith(TB.FORBIDDEN_EXT_PREFIXES) else (
+                        ('pure', fx[2]) if fx[2].startswith(TB.PURE_EXT_PREFIXES) else ('unknown', 'library call %s' % fx[2])))
+                elif fx[1] in ('fn', 'fnraw', 'func', 'cls'):
+                    verdicts.append(('package', fx[2]))
+                else:
+                    verdicts.append(('unknown', show(fx)))
+            elif fx == ('const', None):
+                continue
+            else:
+                verdicts.append(('unknown', show(fx) if fx is not None else 'closure'))
+        for kind in ('forbidden', 'unknown'):
+            hit = [d for k, d in verdicts if k == kind]
+            if hit:
+                return (kind, 'entry of a module-level table: %s' % hit[0])
+        return ('package' if any(k == 'package' for k, _ in verdicts) else 'pure',
+                'one of the %d entries of a module-level table (all pure or package functions)' % len(verdicts))
     if e.d.get('ctor'):
         return ('package', 'constructor %s' % e.resolved)
     if e.resolved:
         return ('package', e.resolved)
     if not isinstance(f, tuple) or not f:
         return ('unknown', show(f))
+    if f[:2] == ('ref', 'modvar') and len(f) == 3:
+        # NAME = functools.lru_cache(...)(g) / functools.cache(g): calling NAME calls g (or returns what g returned before)
+        r_ = common.memo_wrapped(F, f[2])
+        if r_ is not None:
+            if r_[0] == 'builtin':
+                return ('forbidden', 'builtin %s' % r_[1]) if r_[1] in TB.FORBIDDEN_BUILTINS else ('pure', 'memo around builtin %s' % r_[1])
+            if r_[0] in ('fn', 'cls'):
+                return ('package', r_[1])
+            if r_[0] == 'ext':
+                return ('forbidden', r_[1]) if r_[1].startswith(TB.FORBIDDEN_EXT_PREFIXES) else (
+                    ('pure', r_[1]) if r_[1].startswith(TB.PURE_EXT_PREFIXES) else ('unknown', 'library call %s' % r_[1]))
     if f[0] == 'ref':
         if f[1] == 'builtin':
             if f[2] == 'type' and len(e.args or ()) == 1 and not (e.kwargs or ()):
